@@ -237,7 +237,7 @@ def r3_special(ctx, F):
                 ctx.check("R3-special-files", key, "PROC_SELF_FD" in a[1], "PassthroughFs::new opens `%s`; only /proc/self/fd may be opened by absolute path" % a[1])
             elif owner == "open_inode" and nm == "open_file":
                 ctx.ok("R3-special-files", key, "InodeData::open_file behind the is_safe_inode gate", nontrivial=False)
-            elif (owner, nm) in (("create", "create_file_excl"), ("open_file", "openat")):
+            elif (owner, nm) in (("create", "create_file_excl"), ("open_file", "openat"), ("open_file", "open_file")):
                 ctx.ok("R3-special-files", key, "", nontrivial=False)
             else:
                 ctx.violation("R3-special-files", key, "%s opens a file with %s(%s) outside the gated open paths" % (owner, nm, ", ".join(a)[:160]))
